@@ -20,6 +20,7 @@ import (
 	"runtime"
 	"strconv"
 	"strings"
+	"sync"
 	"time"
 
 	"github.com/caddyserver/caddy/v2"
@@ -508,6 +509,107 @@ func mcRunCodecs(e *mcEnv) {
 	}
 	mcRunDelims(e)
 	mcRunChunks(e)
+	mcRunSequences(e)
+}
+
+// ToBytes is a function of the message (that is what the model says): the slice it returned must still
+// hold the serialisation after later ToBytes calls of the same or of other types. Sequences of k = 2..6
+// consecutive calls whose results are all compared after the last one, single-threaded (GOMAXPROCS(1), so
+// that a pooled scratch buffer would be handed out again at once) and from concurrent callers.
+func mcRunSequences(e *mcEnv) {
+	r := e.rng
+	cs := mcCodecs()
+	type held struct {
+		c         *mcCodec
+		got, want []byte
+	}
+	check := func(hs []held, how string) {
+		for i, h := range hs {
+			if !bytes.Equal(h.got, h.want) {
+				e.out.Fail("C18:"+h.c.tag+":tobytes-result-aliased",
+					fmt.Sprintf("%s: the result of ToBytes call %d of %d changed after later ToBytes calls: was %x, now %x", how, i+1, len(hs), h.want, h.got), cHex(h.want))
+			}
+		}
+	}
+	pick := func(same bool, first int, j int) *mcCodec {
+		if same {
+			return &cs[first]
+		}
+		return &cs[(first+j*(1+r.Intn(3)))%len(cs)]
+	}
+	prev := runtime.GOMAXPROCS(1)
+	nseq := 0
+	for first := range cs {
+		for k := 2; k <= 6; k++ {
+			for _, same := range []bool{true, false} {
+				for rep := 0; rep < 2; rep++ {
+					hs := make([]held, 0, k)
+					for j := 0; j < k; j++ {
+						c := pick(same, first, j)
+						ints, blobs := c.gen(r)
+						var got []byte
+						if rep == 1 && j%2 == 1 { // through FromBytes + ToBytes
+							_, _, got, _ = c.from(c.to(ints, blobs))
+						} else {
+							got = c.to(ints, blobs)
+						}
+						hs = append(hs, held{c, got, append([]byte(nil), got...)})
+					}
+					check(hs, "sequence")
+					nseq++
+				}
+			}
+		}
+	}
+	// a request composed from its parts
+	for rep := 0; rep < 20; rep++ {
+		var hs []held
+		for _, tag := range []string{"rdp_tpkt", "rdp_x224", "rdp_token", "rdp_negreq", "rdp_corrinfo"} {
+			for i := range cs {
+				if cs[i].tag == tag {
+					ints, blobs := cs[i].gen(r)
+					got := cs[i].to(ints, blobs)
+					hs = append(hs, held{&cs[i], got, append([]byte(nil), got...)})
+				}
+			}
+		}
+		check(hs, "request composed from its parts")
+		nseq++
+	}
+	runtime.GOMAXPROCS(prev)
+	// concurrent callers
+	if runtime.GOMAXPROCS(0) < 4 {
+		runtime.GOMAXPROCS(4)
+	}
+	var wg sync.WaitGroup
+	var mu sync.Mutex
+	for g := 0; g < 8; g++ {
+		wg.Add(1)
+		rg := vNewRng(vSeed()*131 + int64(g))
+		go func(g int) {
+			defer wg.Done()
+			for it := 0; it < 150; it++ {
+				c := &cs[(g+it)%len(cs)]
+				ints, blobs := c.gen(rg)
+				got := c.to(ints, blobs)
+				want := append([]byte(nil), got...)
+				runtime.Gosched()
+				c2 := &cs[(g+2*it+1)%len(cs)]
+				i2, b2 := c2.gen(rg)
+				got2 := c2.to(i2, b2)
+				want2 := append([]byte(nil), got2...)
+				runtime.Gosched()
+				if !bytes.Equal(got, want) || !bytes.Equal(got2, want2) {
+					mu.Lock()
+					check([]held{{c, got, want}, {c2, got2, want2}}, "concurrent callers")
+					mu.Unlock()
+				}
+			}
+		}(g)
+	}
+	wg.Wait()
+	runtime.GOMAXPROCS(prev)
+	e.out.Stat("tobytes_sequences", nseq)
 }
 
 // terminator / delimiter byte patterns of the three protocols
